@@ -4,7 +4,7 @@
     decidable known-finding classes F-C14-a..d = k_boundary, k_slash_static, k_optional,
     k_dslash, the same predicates as [classify] in gen/c14.py). *)
 From Coq Require Import List NArith.
-From LV Require Import Base.Bytes Router.Match Router.Flat Router.MatchProofs.
+From LV Require Import Base.Bytes Router.Match Router.Flat Router.MatchProofs Router.MatchOptProofs.
 Import ListNotations.
 Open Scope N_scope.
 
@@ -51,15 +51,35 @@ Theorem C14_match_route_total_refuted :
 Proof. exact match_route_total_refuted. Qed.
 Print Assumptions C14_match_route_total_refuted.
 
+(* the three shapes that make up F-C14-c (k_optional) *)
+Theorem C14_refuted_optional_not_last :
+  exists rs p, wf_tree rs = true /\ wf_routes rs = true /\ starts_with_slash p = true
+               /\ k_optional rs = true /\ matches None rs p = false /\ flat_any None rs p = true.
+Proof. exact refuted_optional_not_last. Qed.
+Print Assumptions C14_refuted_optional_not_last.
+
+Theorem C14_refuted_optional_nested_tuple :
+  exists rs p, wf_tree rs = true /\ wf_routes rs = true /\ starts_with_slash p = true
+               /\ k_optional rs = true /\ matches None rs p = false /\ flat_any None rs p = true.
+Proof. exact refuted_optional_nested_tuple. Qed.
+Print Assumptions C14_refuted_optional_nested_tuple.
+
+Theorem C14_refuted_optional_parent :
+  exists rs p, wf_tree rs = true /\ wf_routes rs = true /\ starts_with_slash p = true
+               /\ k_optional rs = true /\ matches None rs p = false /\ flat_any None rs p = true.
+Proof. exact refuted_optional_parent. Qed.
+Print Assumptions C14_refuted_optional_parent.
+
 (** outside the four known classes, for every route table (any nesting of tuples and of
-    routes, any number of siblings), with or without base path, and every request path:
-    the router matches exactly when the table does, and it does not panic *)
+    routes, any number of siblings, OptionalParamSegments as a top-level suffix of the
+    segment tuple of routes without children), with or without base path, and every
+    request path: the router matches exactly when the table does, and it does not panic *)
 Theorem C14_match_iff_flat_except_known :
   forall base rs p,
     wf_tree rs = true -> wf_routes rs = true -> starts_with_slash p = true ->
-    known_class_coarse base rs p = false ->
+    known_class base rs p = false ->
     matches base rs p = flat_any base rs p /\ match_route base rs p <> MPanic.
-Proof. exact match_iff_flat_except_known. Qed.
+Proof. exact match_iff_flat_fine. Qed.
 Print Assumptions C14_match_iff_flat_except_known.
 
 (** ---- first matching definition in declaration order wins ---- *)
@@ -74,20 +94,22 @@ Theorem C14_first_match_wins :
 Proof. exact first_match_wins. Qed.
 Print Assumptions C14_first_match_wins.
 
-(** at the level of the table: the parameters a match returns are those the pattern of the
-    FIRST generated flat route that matches the path binds (every earlier flat route does
-    not match it).  Stated without base path. *)
-Theorem C14_first_flat_route_wins_except_known :
-  forall rs p ch ps,
+(** at the level of the table, with or without base, any number of routes: the FIRST entry
+    of the registered table (Static(base) + generated route, declaration order) that matches
+    the path wins, and the parameters a match returns are exactly what the reference binds
+    for one of that entry's expansions (each value is the corresponding path segment) *)
+Theorem C14_first_entry_wins_params_except_known :
+  forall base rs p ch ps,
     wf_tree rs = true -> wf_routes rs = true -> starts_with_slash p = true ->
-    known_class_coarse None rs p = false ->
-    match_route None rs p = MYes ch ps ->
-    exists pre f post r,
-      gen_routes rs = pre ++ f :: post
-      /\ Forall (fun g => flat_good p g = false) pre
-      /\ spre (toks f) p = Some (ps, r) /\ rem_ok r = true.
-Proof. exact first_flat_route_wins. Qed.
-Print Assumptions C14_first_flat_route_wins_except_known.
+    known_class base rs p = false ->
+    match_route base rs p = MYes ch ps ->
+    exists pre f post e,
+      table base (gen_routes rs) = pre ++ f :: post
+      /\ Forall (fun g => route_matches_flat g p = false) pre
+      /\ In e (expand_optionals f)
+      /\ flat_match e p = Some ps.
+Proof. exact first_entry_wins_params. Qed.
+Print Assumptions C14_first_entry_wins_params_except_known.
 
 (** expand_optionals: no optional survives; each optional is decided both ways *)
 Theorem C14_expand_optionals_spec :
@@ -118,17 +140,8 @@ Proof. exact siblings_partition_except_known. Qed.
 Print Assumptions C14_nested_partition_except_known.
 
 (** ---- each parameter value is the corresponding path segment ----
-    the parameters a match returns are exactly the bindings of the table pattern of one
-    of the generated flat routes on that path ... *)
-Theorem C14_params_are_segments_except_known :
-  forall rs p ch ps,
-    wf_tree rs = true -> wf_routes rs = true -> starts_with_slash p = true ->
-    known_class_coarse None rs p = false ->
-    match_route None rs p = MYes ch ps ->
-    exists f r, In f (gen_routes rs) /\ spre (toks f) p = Some (ps, r) /\ rem_ok r = true.
-Proof. exact params_are_segments. Qed.
-Print Assumptions C14_params_are_segments_except_known.
-
+    (C14_first_entry_wins_params_except_known: the returned parameters are the reference's
+    bindings) ... *)
 (** ... and such a binding of a {param} is a non-empty run of bytes without '/' *)
 Theorem C14_param_value_is_segment :
   forall ts p b r, existsb is_wild_tok ts = false -> spre ts p = Some (b, r) ->
@@ -146,17 +159,26 @@ Theorem C14_build_then_match_refuted :
 Proof. exact build_then_match_refuted. Qed.
 Print Assumptions C14_build_then_match_refuted.
 
-(** ... and true outside the known classes: for a table that declares one flat route [f]
-    (any nesting of routes and tuples), the path built from [f] the way the table entry is
-    built, with one value per parameter (non-empty, free of '/'; anything for a splat),
-    matches and returns exactly those values.  (Tables with several routes: the first
-    matching one wins, C14_first_match_wins.)  Stated without base path. *)
+(** ... and true outside the known classes, for any table and base: the path built from an
+    expansion [e] of route [i] the way the table entry is built (after the base), with one
+    value per parameter (non-empty, free of '/'; anything for a splat), is matched; the
+    winner is the first table entry whose pattern matches; and if no earlier entry matches
+    and route [i] has no optional segment, the returned parameters are exactly those values *)
 Theorem C14_build_then_match_except_known :
-  forall rs f vals p,
+  forall base rs i f e vals p,
     wf_tree rs = true -> wf_routes rs = true ->
-    gen_routes rs = [f] ->
-    vals_ok f vals -> p = build_path f vals ->
-    known_class_coarse None rs p = false ->
-    exists ch, match_route None rs p = MYes ch (bindings f vals).
-Proof. exact build_then_match. Qed.
+    nth_error (gen_routes rs) i = Some f ->
+    In e (expand_optionals f) ->
+    vals_ok e vals -> p = built base e vals ->
+    known_class base rs p = false ->
+    exists ch ps,
+      match_route base rs p = MYes ch ps
+      /\ (exists pre g post e',
+            table base (gen_routes rs) = pre ++ g :: post
+            /\ Forall (fun x => route_matches_flat x p = false) pre
+            /\ In e' (expand_optionals g) /\ flat_match e' p = Some ps)
+      /\ (existsb is_popt f = false ->
+          Forall (fun x => route_matches_flat x p = false) (firstn i (table base (gen_routes rs))) ->
+          ps = bindings f vals).
+Proof. exact build_then_match_any. Qed.
 Print Assumptions C14_build_then_match_except_known.
